@@ -1671,5 +1671,90 @@ theorem denoteAll_perm {ex ex' : LibName → Option S.Bindings} (h : S.PermExpor
             intro x
             simp only [Lib.asMap_append, ih' x, Lib.asMap_perm hs (hadm_s a h1) x]
 
+theorem evalAst_instances (fuel : Nat) (st : State) (s : Statement) (n : LibName) (d : S.Bindings)
+    (h : libLookup st.instances n = some d) : libLookup (evalAst fuel st s).2.instances n = some d := by
+  obtain ⟨st1, h1, i⟩ := evalAst_inv storeRel_true (fuel := fuel) (st := st) (s := s) (r := _) (st' := _) rfl
+  apply i.instances n d
+  rcases h1 with rfl | rfl <;> exact h
+
+theorem evalText_go_instances (fuel : Nat) (n : LibName) (d : S.Bindings) :
+    ∀ (k : Nat) (s : Read.PState) (st : State) (last : Option Value),
+    libLookup st.instances n = some d →
+    libLookup (evalText.go fuel k s st last).2.instances n = some d := by
+  intro k
+  induction k with
+  | zero => intro s st last h; rw [evalText.go]; exact h
+  | succ k ih =>
+    intro s st last h
+    rw [evalText.go]
+    split
+    · exact h
+    · exact h
+    · split
+      · exact h
+      · rename_i stmt syn hx
+        have h2 := evalAst_instances fuel { st with syn := syn } stmt n d h
+        split
+        · rename_i he; rw [he] at h2; exact h2
+        · rename_i he; rw [he] at h2; exact ih _ _ _ h2
+
+theorem evalText_instances (fuel : Nat) (st : State) (text : List Char) (n : LibName) (d : S.Bindings)
+    (h : libLookup st.instances n = some d) : libLookup (evalText fuel st text).2.instances n = some d := by
+  unfold evalText
+  exact evalText_go_instances fuel n d _ _ _ _ h
+
+theorem denote_eq_transform (s : ImportSet) (ex : LibName → Option S.Bindings) :
+    S.denote s ex = (ex (S.leaf s)).map (S.transform s) := by
+  induction s with
+  | direct name loc => simp [S.denote, S.leaf, S.transform]
+  | only sub ids ih => simp [S.denote, S.leaf, S.transform, ih, Function.comp_def]
+  | except sub ids ih => simp [S.denote, S.leaf, S.transform, ih, Function.comp_def]
+  | «prefix» sub p ih => simp [S.denote, S.leaf, S.transform, ih, Function.comp_def]
+  | rename sub pairs ih => simp [S.denote, S.leaf, S.transform, ih, Function.comp_def]
+
+/-- the operators commute with the loading of the library, whatever that involves -/
+theorem importSet_factors (s : ImportSet) (k : Nat) (st : State) :
+    evalImportSet (k + S.depth s) st s =
+      match evalImportSet k st (.direct (S.leaf s) (S.leafLoc s)) with
+      | (.ok defs, st') => (.ok (S.transform s defs), st')
+      | (.error e, st') => (.error e, st') := by
+  induction s with
+  | direct name loc =>
+    simp only [S.depth, S.leaf, S.leafLoc, S.transform, Nat.add_zero]
+    generalize evalImportSet k st (.direct name loc) = res
+    obtain ⟨r, st'⟩ := res
+    cases r <;> rfl
+  | only sub ids ih =>
+    simp only [S.depth, S.leaf, S.leafLoc, S.transform, ← Nat.add_assoc]
+    rw [evalImportSet, ih]
+    generalize evalImportSet k st (.direct (S.leaf sub) (S.leafLoc sub)) = res
+    obtain ⟨r, st'⟩ := res
+    cases r <;> rfl
+  | except sub ids ih =>
+    simp only [S.depth, S.leaf, S.leafLoc, S.transform, ← Nat.add_assoc]
+    rw [evalImportSet, ih]
+    generalize evalImportSet k st (.direct (S.leaf sub) (S.leafLoc sub)) = res
+    obtain ⟨r, st'⟩ := res
+    cases r <;> rfl
+  | «prefix» sub p ih =>
+    simp only [S.depth, S.leaf, S.leafLoc, S.transform, ← Nat.add_assoc]
+    rw [evalImportSet, ih]
+    generalize evalImportSet k st (.direct (S.leaf sub) (S.leafLoc sub)) = res
+    obtain ⟨r, st'⟩ := res
+    cases r <;> rfl
+  | rename sub pairs ih =>
+    simp only [S.depth, S.leaf, S.leafLoc, S.transform, ← Nat.add_assoc]
+    rw [evalImportSet, ih]
+    generalize evalImportSet k st (.direct (S.leaf sub) (S.leafLoc sub)) = res
+    obtain ⟨r, st'⟩ := res
+    cases r with
+    | error e => rfl
+    | ok defs =>
+      simp only [S.renameTarget]
+      congr 2
+      apply List.map_congr_left
+      intro b _
+      cases pairs.reverse.lookup b.1 <;> rfl
+
 end Interp
 end Ruschm
